@@ -11,6 +11,7 @@
 #include <igris/dprint.h>
 #include <igris/util/hexascii.h>
 #include <igris/util/numconvert.h>
+#include "ro_text.hpp"
 #include <set>
 #include <string>
 #include <vector>
@@ -126,8 +127,20 @@ static char *pool(size_t n) // one block per size, reused: [p, p+n) ends at the 
         g_pool[n] = (char *)malloc(n ? n : 1);
     return g_pool[n];
 }
+// The same text in READ-ONLY memory, its NUL flush against an inaccessible page (ro_text.hpp): a parser that patches its
+// (const) input and restores it, or reads past the terminator, faults there.
+static const char *g_ro = nullptr;    // the staged read-only copy
+static const char *g_ro_of = nullptr; // the heap copy it mirrors
+static void ro_stage(const char *heap_copy, size_t len)
+{
+    g_ro = ro_text::stage(heap_copy, len);
+    if (!g_ro)
+        mc::harness_error("ro_text::stage failed");
+    g_ro_of = heap_copy;
+}
+static inline const char *ro_twin(const char *s) { return s == g_ro_of ? g_ro : s; }
 static char *g_spool[160];
-static const char *exact_copy(const char *s, size_t len) // len bytes + NUL, exactly sized
+static const char *exact_copy(const char *s, size_t len) // len bytes + NUL, exactly sized (ASan) + the read-only twin
 {
     if (len + 1 >= sizeof g_spool / sizeof g_spool[0])
         mc::harness_error("exact_copy(%zu)", len);
@@ -135,6 +148,7 @@ static const char *exact_copy(const char *s, size_t len) // len bytes + NUL, exa
         g_spool[len + 1] = (char *)malloc(len + 1);
     memcpy(g_spool[len + 1], s, len);
     g_spool[len + 1][len] = 0;
+    ro_stage(g_spool[len + 1], len);
     return g_spool[len + 1];
 }
 
@@ -146,6 +160,7 @@ struct Rend
     bool sgn;
     bool ret_end; // returned pointer is the terminator (igris_*) / unspecified by the statement (libc shims)
     char *(*fn)(uint64_t raw, char *buf, int base);
+    bool upper() const { return strncmp(name, "igris_u", 7) == 0; } // letter case of the family: igris_u*toa upper, igris_i*toa and the libc shims lower
 };
 static const Rend RENDS[] = {
     {"igris_i8toa", 8, true, true, [](uint64_t r, char *b, int bs) { return igris_i8toa((int8_t)r, b, (uint8_t)bs); }},
@@ -222,12 +237,12 @@ static const char *check_render(const Rend &r, bool neg, uint64_t mag, int base,
     const char *cls = is_min(r.bits, r.sgn, neg, mag) ? "type_min" : (neg && mag) ? "negative" : "nonnegative";
     bool ok = buf[len] == 0;
     for (int i = 0; ok && i < len; i++)
-        if (lower((unsigned char)buf[i]) != ref[i])
+        if ((unsigned char)buf[i] != (r.upper() ? upper(ref[i]) : ref[i]))
             ok = false;
     if (!ok)
     {
-        mc::violation(mc::fmt("C07.%s.text.%s", r.name, cls), "%s(%s, base %d) wrote \"%s\" want \"%s\" (case-insensitive, NUL at %d)", r.name,
-                      valstr(neg, mag).c_str(), base, vis(buf, len + 1).c_str(), ref, len);
+        mc::violation(mc::fmt("C07.%s.text.%s", r.name, cls), "%s(%s, base %d) wrote \"%s\" want \"%s\" in %s case (NUL at %d)", r.name,
+                      valstr(neg, mag).c_str(), base, vis(buf, len + 1).c_str(), ref, r.upper() ? "upper" : "lower", len);
         return nullptr;
     }
     if (r.ret_end ? ret != buf + len : (ret != buf && ret != buf + len))
@@ -242,9 +257,9 @@ static void check_parse(const Pars &p, const char *s, size_t slen, int base)
     RefParse rp = ref_parse(s, base, p.sgn, false, false);
     char *end = nullptr;
     uint64_t got = p.fn(s, base, &end);
-    uint64_t got2 = p.fn(s, base, nullptr);
+    uint64_t got2 = p.fn(ro_twin(s), base, nullptr); // second call: end = NULL, text in read-only memory
     if (got != got2)
-        mc::violation(mc::fmt("C07.%s.value_depends_on_end_argument", p.name), "%s(\"%s\", base %d): %llx with end, %llx with end=NULL", p.name,
+        mc::violation(mc::fmt("C07.%s.value_depends_on_end_argument", p.name), "%s(\"%s\", base %d): %llx with end, %llx with end=NULL on the read-only copy", p.name,
                       vis(s, slen).c_str(), base, (unsigned long long)got, (unsigned long long)got2);
     bool sign_only = rp.ndigits == 0 && rp.neg;
     bool end_ok = end == s + rp.end || (sign_only && end == s + rp.sign_pos);
@@ -508,6 +523,8 @@ static void check_dbg(const DbgFn &f, uint64_t raw, Seen &seen)
         want[k++] = '0';
     memcpy(want + k, ref, len + 1);
     int wl = k + len;
+    for (int i = 0; i < wl; i++) // debug_printhex_* write capital letters
+        want[i] = (char)upper(want[i]);
     g_capn = 0;
     f.fn(raw);
     int n = g_capn < (int)sizeof g_cap - 1 ? g_capn : (int)sizeof g_cap - 1;
@@ -516,7 +533,7 @@ static void check_dbg(const DbgFn &f, uint64_t raw, Seen &seen)
     seen.neg |= neg;
     bool ok = g_capn == wl;
     for (int i = 0; ok && i < wl; i++)
-        if (lower((unsigned char)g_cap[i]) != want[i])
+        if (g_cap[i] != want[i])
             ok = false;
     if (!ok)
         mc::violation(mc::fmt("C07.%s.text.%s", f.name, is_min(f.bits, f.sgn, neg, mag) ? "type_min" : neg ? "negative" : "nonnegative"),
@@ -558,13 +575,28 @@ struct Counter
 };
 
 // ================================================================= sub-checks
+// The -funsigned-char build (plain char is unsigned on ARM / PowerPC / RISC-V) re-runs a selection of the sub-checks.
+static void reg(const char *name, std::function<void()> body)
+{
+#ifdef VARIANT_UCHAR
+    static const char *const SEL[] = {"family32_all_bases", "parse_all_short_strings", "parse_every_terminator_byte", "debug_print_renderers",
+                                      "hexascii_digit_helpers"};
+    bool in = false;
+    for (const char *q : SEL)
+        in |= !strcmp(q, name);
+    if (!in)
+        return;
+#endif
+    mc::add_check(name, body);
+}
+
 MC_INIT
 {
     build_families();
 
     // (1) every 8- and 16-bit value x every base 2..36, through every routine whose type holds the value,
     //     plus the parse round trip
-    mc::add_check("all_8_16_bit_values_all_bases", [] {
+    reg("all_8_16_bit_values_all_bases", [] {
         int c0 = mc::choose(35 * 4);
         int base = 2 + c0 / 4, kind = c0 % 4; // s8 u8 s16 u16
         bool sgn = kind % 2 == 0;
@@ -585,7 +617,7 @@ MC_INIT
     });
 
     // (2) the complete structured 32-bit family x every base
-    mc::add_check("family32_all_bases", [] {
+    reg("family32_all_bases", [] {
         int c0 = mc::choose(35 * 4);
         int base = 2 + c0 / 4, part = c0 % 4; // part: as int32 low half / high half, as uint32 low/high
         bool sgn = part < 2;
@@ -608,7 +640,7 @@ MC_INIT
     });
 
     // (3) the complete structured 64-bit family x every base
-    mc::add_check("family64_all_bases", [] {
+    reg("family64_all_bases", [] {
         const int PARTS = 16;
         int c0 = mc::choose(35 * PARTS);
         int base = 2 + c0 / PARTS, part = c0 % PARTS;
@@ -634,7 +666,7 @@ MC_INIT
 
     // (4) 32-bit sweep against a base-b counter. thorough: every one of the 2^32 values; quick: the values whose
     //     bits 12..21 are all zero or all one (2^23 values: both ends of each of the 1024 blocks)
-    mc::add_check("sweep32_counter_reference", [] {
+    reg("sweep32_counter_reference", [] {
         int blk = mc::choose(1024);
         bool th = mc::thorough();
         int base = mc::choose(2) ? 16 : 10;
@@ -706,7 +738,7 @@ MC_INIT
 
     // (5) every string of length <= 4 over the alphabet (NUL inside = shorter string) followed by each terminator,
     //     bases 2,8,10,16,36, every igris_ato*; base 10 also atol/atoi
-    mc::add_check("parse_all_short_strings", [] {
+    reg("parse_all_short_strings", [] {
         static const char A[17] = {'0', '1', '7', '9', 'a', 'A', 'f', 'F', 'g', 'z', 'Z', '-', '+', ' ', '.', 'x', 0};
         static const char T[6] = {0, ' ', 'x', '.', '-', 'G'};
         static const int B[5] = {2, 8, 10, 16, 36};
@@ -745,6 +777,9 @@ MC_INIT
                             long l = igc_atol(e);
                             mc::crash_context("C07.atoi.memory");
                             int iv = igc_atoi(e);
+                            mc::crash_context("C07.atol.memory.readonly_input");
+                            if (igc_atol(ro_twin(e)) != l || igc_atoi(ro_twin(e)) != iv)
+                                mc::violation("C07.atol.value_differs_on_readonly_copy", "atol/atoi(\"%s\")", vis(e, len).c_str());
                             n += 2;
                             nt += 2 * interesting;
                             if (!ra.overflow && fits(64, true, ra.neg, ra.mag) && (uint64_t)l != raw_of(ra.neg, ra.mag))
@@ -764,7 +799,7 @@ MC_INIT
     });
 
     // (6) every byte value 0..255 as the terminator after short digit strings of every base 2..36
-    mc::add_check("parse_every_terminator_byte", [] {
+    reg("parse_every_terminator_byte", [] {
         int c0 = mc::choose(35 * 2);
         int base = 2 + c0 / 2;
         bool minus = c0 % 2;
@@ -817,7 +852,7 @@ MC_INIT
     });
 
     // (7) debug_print decimal / hex / binary renderers through a harness-defined debug_putchar
-    mc::add_check("debug_print_renderers", [] {
+    reg("debug_print_renderers", [] {
         int c0 = mc::choose(NDBG * 4);
         const DbgFn &f = DBG[c0 / 4];
         int part = c0 % 4;
@@ -851,7 +886,7 @@ MC_INIT
     });
 
     // (8) hexascii.h digit helpers: hex2half on every hex digit of either case, half2hex on every nibble, hex2byte on every pair
-    mc::add_check("hexascii_digit_helpers", [] {
+    reg("hexascii_digit_helpers", [] {
         static const char H[] = "0123456789abcdefABCDEF";
         int c0 = mc::choose(22 * 22);
         char hi = H[c0 / 22], lo = H[c0 % 22];
@@ -877,7 +912,7 @@ MC_INIT
     });
 
     // (9) vt100_left: the user of the returned-terminator contract of igris_i32toa
-    mc::add_check("vt100_left_uses_end_pointer", [] {
+    reg("vt100_left_uses_end_pointer", [] {
         int part = mc::choose(64);
         size_t n = g_f32.size(), from = n * part / 64, to = n * (part + 1) / 64;
         mc::describe("vt100_left(buf, v) for v in F32[%zu..%zu)", from, to);
